@@ -66,6 +66,12 @@ theorem callFn_ok (A) (p : Prims) (n k : String) (as : List V) (kw : List (Strin
     Hoare (LogOK A) (callFn p n k as kw) := by
   unfold callFn; hauto
 
+theorem callOpt_ok (A) (p : Prims) (cb : Option (String × String)) : Hoare (LogOK A) (callOpt p cb) := by
+  unfold callOpt
+  split
+  · apply Hoare.bind (logOK_rel _) (callFn_ok ..); hauto
+  · hauto
+
 theorem gvarGet_ok (A) (id : Nat) (name : String) : Hoare (LogOK A) (gvarGet id name) := by
   unfold gvarGet; hauto
 
@@ -90,6 +96,24 @@ def StepOK (rec : Rec σ) (m : Mode) (A : List (Nat × Mode)) (P : Spec → Prop
 
 theorem nextScope_mode (cur : σ) (last : Option σ) : mode (nextScope cur last) = mode cur := by
   cases last <;> simp [nextScope, LawfulScope.mode_chain]
+
+theorem nextScope_argMode (cur : σ) (last : Option σ) : argMode (nextScope cur last) = argMode cur := by
+  cases last <;> simp [nextScope, LawfulScope.argMode_chain]
+
+/-- every step of a chain is evaluated at a scope with the owner's mode and argument flag: what the
+    evaluator does at scopes with another mode cannot influence the chain -/
+theorem tupleLoop_mode_congr {rec1 rec2 : Rec σ} (m : Mode) (a : Bool)
+    (h : ∀ s t (c : σ), mode c = m → argMode c = a → rec1 s t c = rec2 s t c) :
+    ∀ (steps : List Spec) (res : V) (cur : σ) (last : Option σ), mode cur = m → argMode cur = a →
+      tupleLoop rec1 steps res cur last = tupleLoop rec2 steps res cur last := by
+  intro steps
+  induction steps with
+  | nil => intro res cur last _ _; rfl
+  | cons s rest ih =>
+    intro res cur last hm ha
+    have hm' : mode (nextScope cur last) = m := by rw [nextScope_mode, hm]
+    have ha' : argMode (nextScope cur last) = a := by rw [nextScope_argMode, ha]
+    simp only [tupleLoop, h s res _ hm' ha', ih _ _ _ hm' ha']
 
 theorem tupleLoop_ok {rec : Rec σ} {m A P} (hrec : StepOK rec m A P) :
     ∀ (steps : List Spec) (res : V) (cur : σ) (last : Option σ),
